@@ -2,7 +2,7 @@
 # seedrun.sh <seed dir> <property id> [tier]: apply the seeded change to /repo, run the check, undo.
 d=$1; pid=$2; tier=${3:-quick}
 if [ -n "$(git -C /repo status --porcelain)" ]; then echo "refusing: /repo has uncommitted changes (commit them first)"; exit 9; fi
-cd /repo && git apply --3way "$d/patch.diff" >/dev/null 2>&1 || { echo "apply failed"; git -C /repo checkout -- . ; exit 3; }
+cd /repo && git apply --3way "$d/patch.diff" >/dev/null 2>&1 || { echo "apply failed"; git -C /repo reset -q --hard HEAD; exit 3; }
 git -C /repo reset -q
 cd /verif && ./check $pid $tier > /tmp/seedrun_$pid.log 2>&1; rc=$?
 git -C /repo checkout -- .
